@@ -810,6 +810,14 @@ impl SaleWorld {
         let env = format!("(mkEnv {} {} {} {})", now, sender_id, self.coq_funds(&funds), minter_id);
         let mut new_view: Option<String> = None;
         let mut pre_positions: Vec<(u32, u32)> = vec![];
+        // a legal pick to offer the model when the implementation rejects a mint (so that a
+        // rejection the model does not predict shows up as a disagreement): the token at the
+        // first position, which is always inside the pick window
+        let fallback_choice: u64 = if matches!(op, Op::Mint { .. } | Op::MintM { .. } | Op::MintTo { .. }) {
+            self.positions().first().map(|p| p.1 as u64).unwrap_or(0)
+        } else {
+            0
+        };
         let res = match op {
             Op::Mint { .. } => {
                 if self.v.merkle {
@@ -898,7 +906,7 @@ impl SaleWorld {
                 }
             }
         }
-        let choice = minted.as_ref().map(|m| m.0).unwrap_or(0);
+        let choice = minted.as_ref().map(|m| m.0).unwrap_or(fallback_choice);
         let coq_op = match op {
             Op::Mint { .. } => format!("(OMint None false None {})", choice),
             Op::MintM { stage, proof, allocation, .. } => format!(
